@@ -131,15 +131,24 @@ func runAliasing(a *args) {
 	if n <= 0 {
 		n = 2000
 	}
+	for _, vn := range verOrder {
+		v := versions[vn]
+		ord, vals := tabs.Order[vn], tabs.Values[vn]
+		if p, msg := safely(func() { aliasingVersion(col, prop, vn, v, ord, vals, rng, n) }); p {
+			col.violate(Violation{Property: prop, Kind: "a call panicked", Version: vn, Input: "Vector()/ParseVector/Set on seeded random objects", Expected: "no panic", Observed: msg})
+		}
+	}
+	col.write(a.Out)
+}
+
+func aliasingVersion(col *collector, prop, vn string, v *Ver, ord []string, vals map[string][]string, rng *rand.Rand, n int) {
 	type kept struct {
 		ver   string
 		s     string
 		clone string
 		addr  uintptr
 	}
-	for _, vn := range verOrder {
-		v := versions[vn]
-		ord, vals := tabs.Order[vn], tabs.Values[vn]
+	{
 		rnd := func(sparse bool) Obj {
 			o := v.Zero()
 			for _, m := range ord {
@@ -196,7 +205,6 @@ func runAliasing(a *args) {
 			col.sample(map[string]interface{}{"version": vn, "kept_string": ks[0].clone})
 		}
 	}
-	col.write(a.Out)
 }
 
 func init() {
